@@ -87,6 +87,7 @@ def rule_wrappers(ctx: Ctx) -> None:
 
 
 KNOCKOUTS = [
+    Knockout("remove-qubit-pivot-overwritten", "graphiq/backends/stabilizer/functions/clifford.py", sub_once("                    omit_index,\n                    row,\n                )", "                    row,\n                    omit_index,\n                )"), "own.rowops", "pivot `omit_index`"),
     Knockout("mixture-trace-out-size-read-per-branch", "graphiq/backends/stabilizer/state.py", sub_once("                    keep=keep,\n                    dims=n_qubits * [2],\n", "                    keep=[q for q in range(self.n_qubits) if q not in qubit_positions],\n                    dims=n_qubits * [2],\n"), "size.stale-per-branch", "trace_out_qubits", on_fixed_only=True),
     Knockout("reset-y-minus-uses-phase-dagger", CLIFF, sub_nth("    new_tableau = hadamard_gate(new_tableau, qubit_position)\n    new_tableau = phase_gate(new_tableau, qubit_position)\n    return new_tableau", "    new_tableau = hadamard_gate(new_tableau, qubit_position)\n    if intended_state == 0:\n        new_tableau = phase_gate(new_tableau, qubit_position)\n    else:\n        new_tableau = phase_dagger_gate(new_tableau, qubit_position)\n    return new_tableau", 0), "reset.basis", "reset_y"),
     Knockout("measure-x-restores-only-random-outcomes", CLIFF, sub_once("    stabilizer_state_new, outcome, _ = z_measurement_gate(\n        stabilizer_state_new, qubit_position, measurement_determinism\n    )\n    # rotate back: the gates act in place on the caller's tableau\n    hadamard_gate(stabilizer_state_new, qubit_position)", "    stabilizer_state_new, outcome, probabilistic = z_measurement_gate(\n        stabilizer_state_new, qubit_position, measurement_determinism\n    )\n    if probabilistic:\n        hadamard_gate(stabilizer_state_new, qubit_position)"), "measure.basis-restored", "measure_x"),
@@ -152,7 +153,7 @@ KNOCKOUTS = [
                       "                tableau.x_matrix = add_rows(tableau.x_matrix, j, k)\n\n    # Eliminate phase"),
              "own.rowops", "add_rows"),
     Knockout("C4-rowsum-drops-phase", STABF,
-             sub_once("    tableau.phase = r_vector\n    return tableau", "    return tableau"),
+             lambda src: sub_once("    tableau.phase = r_vector\n    return tableau", "    return tableau")(sub_once("        tableau.phase,\n        np.zeros(n_qubits),", "        tableau.phase.copy(),\n        np.zeros(n_qubits),")(src)),
              "own.rowops", "tab_row_sum"),
     Knockout("derived-y-gate", gatesum.TRANSFORM,
              sub_once("    tableau = phase_gate(tableau, qubit_position)\n    tableau = z_gate(tableau, qubit_position)\n    tableau = x_gate(tableau, qubit_position)\n    tableau = phase_gate(tableau, qubit_position)\n",
